@@ -25,6 +25,13 @@
      * the final conversion of the value at HALT (Heap::get_as_cell, whose fuel is an artefact
        of the model): monotone in the fuel, correct whenever the fuel does not run out, and a
        counterexample to "heap size + 1 suffices" (Proofs/CellFuelProofs.v);
+     * R2: the machine invariant [minv] assumed by all of the above holds for the BOOTED machine
+       and for every state of a session started from it, by preservation (never by evaluating
+       [booted]): finv /\ J is kept by the compiler on ANY datum, every instruction, every
+       builtin of the generated table, the run loop (also on the error path), Vm::eval and the
+       boot sequence — C01_eval_preserves_rinv, C01_booted_minv, C01_session_minv (at the end of
+       this file; Proofs/KeepCalc.v .. KeepRun.v, BootMinv.v); load_builtins binds every
+       registered builtin name to its VBuiltin cell — C01_load_builtins_ok (Proofs/BootGenv.v);
    together with the scoping theorems of C02, the frame theorems of C04, the
    continuation theorems of C05 and the run-loop theorems of C07/C13.
    OPEN: the semantic compile-correctness theorem for the whole language
